@@ -247,10 +247,15 @@ fn plan_c16(thorough: bool) -> Plan {
     cases.extend(pfx_family("noproof"));
     cases.extend(crate::plans2::tombstone_family("noproof", thorough));
     set_all(&mut cases, "image", json!("c16"));
+    for (h, t, b) in crash_histories(false) {
+        if b >= 3 || h["seed"] != "empty" {
+            cases.push(json!({"mode": "c03", "hist": h, "target": t, "bound": b, "cap": 4, "nested": false, "decode": true}));
+        }
+    }
     sort_by_bound(&mut cases);
     let mut p = Plan::new(
         cases,
-        "histx + imgdec: every history of ≤D commits with ≤B key actions over structural seed states (empty, leaf, branch, bulk, ovf, clusters of 19..21 keys below a depth-2 and a depth-3 merkle page) with hash tables of 64/256/4096 buckets; at every quiescent point (after open and after every commit) the directory is decoded by an independent decoder written from the documented formats: every key in exactly one leaf, strict order within/across leaves, keys bounded by separators, bbn labels, overflow chains complete with matching value hash and disjoint pages, used ∩ free = ∅, no page used twice, decoded key-value map = model; every full bucket found exactly once through its own probe sequence, every node reachable in every stored page = the reference trie's node at that position, needed pages either stored or marked elided (and then absent with all descendants), no unreachable stored page.",
+        "histx + imgdec: every history of ≤D commits with ≤B key actions over structural seed states (empty, leaf, branch, bulk, ovf, clusters of 19..21 keys below a depth-2 and a depth-3 merkle page) with hash tables of 64/256/4096 buckets; at every quiescent point (after open and after every commit) the directory is decoded by an independent decoder written from the documented formats: every key in exactly one leaf, strict order within/across leaves, keys bounded by separators, bbn labels, overflow chains complete with matching value hash and disjoint pages, used ∩ free = ∅, no page used twice, decoded key-value map = model; every full bucket found exactly once through its own probe sequence, every node reachable in every stored page = the reference trie's node at that position, needed pages either stored or marked elided (and then absent with all descendants), no unreachable stored page. Plus every process-crash cut (see C03) of the explicit crash histories (rollback, pruning, overlay commits, page promotion from elided to stored, pages cleared by delete-only commits): the image recovered by Nomt::open is decoded the same way.",
     );
     p.budget_s = if thorough { 1500 } else { 45 };
     p.assumptions = vec!["the decoder implements the documented layouts (trusted, ~600 lines, shares no code with nomt)".into(), "crash-recovered images are covered by the C03 check, which applies the same decoder".into()];
@@ -261,10 +266,15 @@ fn plan_c19(thorough: bool) -> Plan {
     let mut cases = structural_family(thorough, if thorough { &[64, 4096, 64000] } else { &[64, 4096] });
     cases.extend(crate::plans2::tombstone_family("noproof", thorough));
     set_all(&mut cases, "image", json!("c19"));
+    for (h, t, b) in crash_histories(false) {
+        if b >= 3 || h["seed"] != "empty" {
+            cases.push(json!({"mode": "c03", "hist": h, "target": t, "bound": b, "cap": 4, "nested": false, "decode": true, "occupancy": true}));
+        }
+    }
     sort_by_bound(&mut cases);
     let mut p = Plan::new(
         cases,
-        "histx + imgdec: the structural history family of C16; at every quiescent point the decoder's page accounting must give [1, bump) = in-use ⊎ free-list-tracked in both value files (no leak, no double use), and hash_table_utilization().occupied = number of full buckets in the decoded meta map = number of stored pages reachable from the root (0 for an empty store).",
+        "histx + imgdec: the structural history family of C16; at every quiescent point the decoder's page accounting must give [1, bump) = in-use ⊎ free-list-tracked in both value files (no leak, no double use), and hash_table_utilization().occupied = number of full buckets in the decoded meta map = number of stored pages reachable from the root (0 for an empty store). Plus every process-crash cut of the explicit crash histories: the same accounting of occupancy on the handle that recovered the image.",
     );
     p.budget_s = if thorough { 1500 } else { 45 };
     p
@@ -359,6 +369,18 @@ pub fn crash_histories(thorough: bool) -> Vec<(Value, usize, u64)> {
     ];
     for (ops, t) in exc {
         out.push((hist("cl12x20", cl.clone(), &cfg, ops), t, 3));
+    }
+    // merkle page promoted from elided to stored while only part of it is touched; pages cleared
+    // by a delete-only commit (tombstones replayed from the WAL)
+    {
+        let cl19 = vec!["CL12:17-25"];
+        out.push((hist("cl12x19", cl19.clone(), &cfg, vec![c(vec![w(2, 1), w(3, 1)])]), 0, 3));
+        out.push((hist("cl12x19", cl19.clone(), &cfg, vec![c(vec![w(2, 1), w(3, 1), w(4, 1)]), c(vec![del(2), del(3), del(4), del(0)])]), 1, 3));
+        let pairs = vec!["PAIRS:3"];
+        let fill: Vec<Value> = (0..6).map(|i| w(i, 1)).collect();
+        out.push((hist("empty", pairs.clone(), &cfg, vec![c(fill.clone()), c(vec![del(0), del(1)])]), 1, 3));
+        out.push((hist("empty", pairs.clone(), &cfg, vec![c(fill.clone()), c(vec![del(2), del(3), del(4), del(5)])]), 1, 3));
+        out.push((hist("empty", pairs.clone(), &cfg, vec![c(fill.clone()), c(vec![del(0), del(1)]), c(vec![w(0, 2), w(1, 2)])]), 2, 3));
     }
     if thorough {
         // every earlier op of the explicit histories as target too is covered by (a) prefixes;
